@@ -610,4 +610,72 @@ theorem convertAnys_refines {st : Store} {v : HVal} (hw : HVal.wf st v) :
         · rename_i c heq; rw [heq]; rfl
         · rename_i c heq; rw [heq]; rfl
 
+
+/-! ### sort: the copy is sorted into a permutation -/
+
+theorem decorate_snd (f : GoVal → R Bytes) : ∀ (xs : List GoVal) (ds : List (Bytes × GoVal)),
+    decorate f xs = .ok ds → ds.map (·.2) = xs
+  | [], ds, h => by simp only [decorate, Res.ok.injEq] at h; subst h; rfl
+  | x :: xs, ds, h => by
+    simp only [decorate] at h
+    obtain ⟨k, _, h⟩ := Res.bind_eq_ok h
+    obtain ⟨r, hr, h⟩ := Res.bind_eq_ok h
+    simp only [Res.ok.injEq] at h
+    subst h
+    simp [decorate_snd f xs r hr]
+
+theorem sortWith_ok_perm {strict : Bool} {xs : List GoVal} {key w : GoVal}
+    (h : sortWith strict [.slice .any xs, key] = .ok w) : ∃ ys, w = .slice .any ys ∧ ys.Perm xs := by
+  unfold sortWith at h
+  split at h
+  · rename_i xs' heq
+    simp only [List.cons.injEq, GoVal.slice.injEq, true_and, and_true] at heq
+    obtain ⟨rfl, _⟩ := heq
+    split at h
+    · cases h
+    · simp only at h
+      split at h
+      · cases h
+      · simp only [Res.ok.injEq] at h
+        exact ⟨_, h.symm, List.mergeSort_perm _ _⟩
+  · rename_i xs' key' _ heq
+    simp only [List.cons.injEq, GoVal.slice.injEq, true_and, and_true] at heq
+    obtain ⟨rfl, _⟩ := heq
+    obtain ⟨k, _, h⟩ := Res.bind_eq_ok h
+    split at h
+    · cases h
+    · simp only at h
+      split at h
+      · cases h
+      · simp only [Res.ok.injEq] at h
+        exact ⟨_, h.symm, List.mergeSort_perm _ _⟩
+  · cases h
+
+theorem sortNaturalWith_ok_perm {strict : Bool} {xs : List GoVal} {key w : GoVal}
+    (h : sortNaturalWith strict [.slice .any xs, key] = .ok w) : ∃ ys, w = .slice .any ys ∧ ys.Perm xs := by
+  simp only [sortNaturalWith] at h
+  obtain ⟨f, _, h⟩ := Res.bind_eq_ok h
+  obtain ⟨ds, hds, h⟩ := Res.bind_eq_ok h
+  split at h
+  · cases h
+  · simp only [Res.ok.injEq] at h
+    refine ⟨_, h.symm, ?_⟩
+    have hp : (sortTexts ds).Perm ds := List.mergeSort_perm _ _
+    have := hp.map (·.2)
+    rwa [decorate_snd f _ _ hds] at this
+
+theorem sortedList_perm {strict natural : Bool} {xs ys : List GoVal} {key : GoVal}
+    (h : sortedList strict natural xs key = .ok ys) : ys.Perm xs := by
+  unfold sortedList at h
+  split at h
+  · rename_i ys' heq
+    simp only [Res.ok.injEq] at h
+    subst h
+    cases natural
+    · obtain ⟨zs, hz, hl⟩ := sortWith_ok_perm (by simpa using heq)
+      cases hz; exact hl
+    · obtain ⟨zs, hz, hl⟩ := sortNaturalWith_ok_perm (by simpa using heq)
+      cases hz; exact hl
+  all_goals cases h
+
 end Heap
